@@ -1378,6 +1378,8 @@ class quantized_bits(base_quantizer.BaseQuantizer):  # pylint: disable=invalid-n
       else:
         # Calculate the scale.
         scale = (K.max(abs(x), axis=axis, keepdims=True) * 2) / levels
+        # An all-zero channel must not produce a zero scale (and 0/0 below).
+        scale = K.maximum(scale, K.epsilon())
 
         # If alpha is "auto_po2", then get the "best" po2 scale
         if "po2" in self.alpha:
